@@ -22,19 +22,19 @@ THEOREMS: dict = {}
 PROPERTY = None
 
 KERNELS = {
-    'C01': ['erode', 'erode_u8', 'erode_shared_bc', 'dilate', 'dilate_b', 'erode_3d', 'dilate_3d'],
+    'C01': ['erode', 'erode_u8', 'erode_shared_bc', 'dilate', 'dilate_b', 'erode_3d', 'dilate_3d', 'erode_float_bc', 'dilate_float_bc'],
     'C02': ['open', 'close', 'open_u8', 'close_b', 'cdilate', 'cerode', 'tophat_open', 'tophat_close', 'subm'],
-    'C03': ['label', 'label_8', 'label_3d'],
-    'C04': ['cwatershed', 'cwatershed_lines'],
+    'C03': ['label', 'label_8', 'label_3d', 'label_float_bc'],
+    'C04': ['cwatershed', 'cwatershed_lines', 'cwatershed_bc'],
     'C05': ['distance', 'distance_3d', 'distance_euclidean', 'gvoronoi'],
     'C06': ['convolve', 'convolve_u8', 'convolve1d', 'convolve_3d', 'gaussian_filter', 'gaussian_filter_d1',
             'gaussian_filter_d01', 'gaussian_filter1d_d2', 'laplacian_2D'],
-    'C07': ['median_filter', 'median_shared_bc', 'rank_filter', 'mean_filter', 'template_match', 'template_match_fl', 'find'],
+    'C07': ['median_filter', 'median_shared_bc', 'rank_filter', 'mean_filter', 'template_match', 'template_match_fl', 'find', 'median_float_bc', 'rank_float_bc', 'mean_filter_bc'],
     'C13': ['labeled_sum', 'labeled_max', 'labeled_min', 'labeled_size', 'bbox', 'labeled_bbox', 'relabel', 'remove_bordering',
             'remove_regions', 'is_same_labeling', 'filter_labeled', 'borders', 'border', 'bwperim', 'center_of_mass',
             'center_of_mass_labels', 'fullhistogram', 'croptobbox'],
     'C14': ['locmax', 'locmin', 'regmax', 'regmin', 'regmax_bc', 'locmax_shared_bc', 'regmin_shared_bc', 'close_holes',
-            'hitmiss', 'hitmiss_u8'],
+            'hitmiss', 'hitmiss_u8', 'locmax_float_bc', 'regmin_float_bc', 'close_holes_bc'],
     'C15': ['thin', 'euler', 'euler_4', 'convexhull', 'fill_convexhull'],
     'C16': ['otsu', 'otsu_ignore_zeros', 'rc', 'bernsen', 'gbernsen', 'soft_threshold'],
     'C17': ['haar', 'ihaar', 'daubechies', 'idaubechies', 'daubechies_d8', 'wavelet_center'],
